@@ -1209,6 +1209,11 @@ pub fn object_set_prototype_of(
         }
     };
 
+    if let Some(p) = &new_proto
+        && crate::value::prototype_chain_reaches(p, &obj_ref)
+    {
+        return Err(JsError::type_error("Cyclic __proto__ value"));
+    }
     obj_ref.borrow_mut().prototype = new_proto;
     // Object was passed in by caller, already owned - no guard needed
     Ok(Guarded::unguarded(obj))
